@@ -19,6 +19,7 @@ MODULES = {
     "iroh_relay__http": ("iroh-relay", "http::verif_kani"),
     "iroh_relay__streams": ("iroh-relay", "server::streams::verif_kani"),
     "iroh_relay__client": ("iroh-relay", "server::client::verif_kani"),
+    "iroh_relay__handshake": ("iroh-relay", "protos::handshake::verif_kani"),
     "iroh_dns__pkarr": ("iroh-dns", "pkarr::verif_kani"),
     "iroh__mapped_addrs": ("iroh", "socket::mapped_addrs::verif_kani"),
     "iroh__ip": ("iroh", "socket::transports::ip::verif_kani"),
@@ -285,5 +286,34 @@ PROPS["C19"] = {
         H(_I, "c19_valid_send_addr_matches_rule", "is_valid_send_addr == (source given: same family and bound address unspecified or equal; none: subnet contains destination, or link-local v6 destination on the socket's scope)", "all configs/destinations/sources", timeout=600),
         H(_I, "c19_valid_default_addr_matches_rule", "is_valid_default_addr == default-flagged socket of the family of the source (else of the destination)", "all configs/destinations/sources"),
         W(_I, "c19_witness"),
+    ],
+}
+
+_H = "iroh_relay__handshake"
+PROPS["C07"] = {
+    "functions": ["iroh_relay::server::OnDisconnectGuard::{for_access_control,empty,drop,endpoint_id,connection_id}", "ClientRequest::new", "ConnectionId::next"],
+    "bounds": "any endpoint key; one admitted connection, one policy-less guard; 3 consecutive connection ids",
+    "out": "MOST of the property: SuccessfulAuthentication::authorize_with/accept/deny go through handshake::write_frame, whose BytesMut growth + postcard io::Write plumbing did not finish under CBMC "
+           "(10 min, also with BytesMut::new and postcard::to_io stubbed; async fns cannot be stubbed) - that a denial creates no guard and an admission creates exactly one is by reading; the guard's life inside the "
+           "connection actor (tokio task); ids wrap after 2^64",
+    "stubs": [KEY_ALLVALID],
+    "assumptions": ["mock DynAccessControl counting calls"],
+    "harnesses": [
+        H(_H, "c07_guard_notifies_exactly_once_on_drop", "a guard notifies the policy exactly once (same endpoint + connection id) when dropped, not before, also after moves; an empty guard notifies nobody", "any endpoint key"),
+        H(_H, "c07_connection_ids_fresh", "connection ids are distinct and increasing", "3 consecutive ids"),
+    ],
+}
+PROPS["C03"] = {
+    "functions": ["iroh_relay::protos::handshake::KeyMaterialClientAuth::verify", "ClientAuth::verify", "ServerChallenge::message_to_sign", "deserialize_frame::<ClientAuth> (postcard)"],
+    "bounds": "all keys, signatures, suffixes, challenges and keying material (fully symbolic); ClientAuth frame bodies: all 97-byte strings",
+    "out": "serverside() as a whole (it calls rand::rng(): thread-local with destructor => kani-compiler ICE): the fall-through from a failed key-material check to the challenge path and the denial frame on failure are by reading; "
+           "that the TLS exporter is bound to the session (rustls); Ed25519/BLAKE3 themselves; the client side (needs a SecretKey: SHA-512 + scalar multiplication)",
+    "stubs": [KEY_ALLVALID, KEY_ORACLE, SIG_ORACLE, "blake3::derive_key -> uninterpreted function (records input, fresh output)", BT],
+    "assumptions": ["the two verification kernels are what serverside() calls to decide admission (by reading handshake.rs)"],
+    "harnesses": [
+        H(_H, "c03_key_material_auth_binds_key_and_session", "key-material auth Ok iff exporter(context = claimed key) suffix matches and the oracle accepts (claimed key, first 16 bytes of that material, client signature)", "all symbolic", timeout=600, stub_env=True, stubs=["verify"]),
+        H(_H, "c03_challenge_auth_binds_key_and_challenge", "challenge auth Ok iff the oracle accepts (claimed key, derive_key(domain, this challenge), client signature)", "all symbolic", timeout=600, stub_env=True, stubs=["verify", "derive_key"]),
+        H(_H, "c03_client_auth_frame_decoding", "the ClientAuth frame decodes to exactly the key and signature bytes sent; only valid points accepted", "all 97-byte bodies", timeout=600),
+        W(_H, "c03_witness"),
     ],
 }
